@@ -288,6 +288,28 @@ func runC03(t *testing.T, c *choice.Stream, r *Result, opt RunOpt) {
 				break
 			}
 		}
+		// a Ping after the queries, answered by Pong, by an exception chain, or by a packet a Ping does not expect
+		pingAnswer := []string{"none", "pong", "exception", "unexpected"}[c.Weighted("ping", 2, 3, 2, 1)]
+		var pingChain []refproto.Exception
+		lastFails := false
+		if _, we, _ := scs[len(scs)-1].expected(); we == "no-onresult" {
+			lastFails = true
+		}
+		if lastFails {
+			pingAnswer = "none"
+		}
+		nop := func(*refproto.ClientPacket) []byte { return nil }
+		switch pingAnswer {
+		case "pong":
+			script = append(script, simnet.Step{Label: "ping", OnPacket: nop}, simnet.Step{Label: "pong", Send: (&SPacket{Kind: "pong"}).Encode(cf)},
+				simnet.Step{Label: "ping", OnPacket: nop}, simnet.Step{Label: "pong", Send: (&SPacket{Kind: "pong"}).Encode(cf)})
+		case "exception":
+			pingChain = DrawExceptionChain(c)
+			script = append(script, simnet.Step{Label: "ping", OnPacket: nop}, simnet.Step{Label: "exception", Send: (&SPacket{Kind: "exception", Exc: pingChain}).Encode(cf)},
+				simnet.Step{Label: "ping", OnPacket: nop}, simnet.Step{Label: "pong", Send: (&SPacket{Kind: "pong"}).Encode(cf)})
+		case "unexpected":
+			script = append(script, simnet.Step{Label: "ping", OnPacket: nop}, simnet.Step{Label: "eos", Send: (&SPacket{Kind: "eos"}).Encode(cf)})
+		}
 		e.Sim.DrawStrategy()
 		e.Sim.StallProb = 0 // fault-free configuration: no simulator-made delays
 		e.Sim.MaxSteps = 400000
@@ -325,6 +347,31 @@ func runC03(t *testing.T, c *choice.Stream, r *Result, opt RunOpt) {
 				}
 				if derr != nil && cl.IsClosed() {
 					break
+				}
+			}
+			if clean && !cl.IsClosed() {
+				switch pingAnswer {
+				case "pong":
+					for i := 0; i < 2; i++ {
+						if err := cl.Ping(ctx); err != nil {
+							r.Violate("ping", "ping:pong", "Ping %d answered by Pong returned %v", i, err)
+						}
+					}
+				case "exception":
+					err := cl.Ping(ctx)
+					ex, ok := ch.AsException(err)
+					if !ok || int32(ex.Code) != pingChain[0].Code || ex.Message != pingChain[0].Message || len(ex.Next) != len(pingChain)-1 {
+						r.Violate("ping", "ping:exception", "Ping answered by the exception chain %+v returned %v", pingChain, err)
+					} else if err := cl.Ping(ctx); err != nil {
+						r.Violate("ping", "ping:after-exception", "the Ping after one that was answered by an exception returned %v", err)
+					}
+				case "unexpected":
+					if err := cl.Ping(ctx); err == nil {
+						r.Violate("ping", "ping:unexpected", "Ping answered by EndOfStream returned nil")
+					}
+				}
+				if pingAnswer != "none" {
+					r.Fire("ping_" + pingAnswer)
 				}
 			}
 			if clean && srv.Parser.Err != nil {
